@@ -37,7 +37,9 @@ def transfer(log):
 
 
 def lifecycle(log):
-    out = [{"ev": "init"}]
+    cfg = next((e["cfg"] for e in log if e["k"] == "cfg"), {})
+    us = lambda side: int(round((cfg.get(side + "_idle") or cfg.get("idle") or 60.0) * 1e6))     # noqa: E731
+    out = [{"ev": "init", "idle_c": us("c"), "idle_s": us("s")}]
     started = set()
     pk = {}
     for e in log:
@@ -48,9 +50,15 @@ def lifecycle(log):
         if k == "api" and e["call"] == "connect":
             out.append({"ev": "start", "ep": "c", "t": e["t"]})
             started.add("c")
+        elif k == "arr" and e["haskeys"] and any(f["t"] == "connection_close" for f in pk[e["dg"]][e["idx"]].get("frames", [])):
+            # the peer's CONNECTION_CLOSE reaches an endpoint that can open the packet
+            out.append({"ev": "peerclose", "ep": e["ep"], "t": e["t"]})
         elif k == "rx" and e["ep"] == "s" and "s" not in started:
             started.add("s")
             out.append({"ev": "start", "ep": "s", "t": e["t"]})
+            out.append({"ev": "recv", "ep": "s", "t": e["t"]})
+        elif k == "rx":
+            out.append({"ev": "recv", "ep": e["ep"], "t": e["t"]})     # any datagram handed in may have restarted the idle period
         elif k == "api" and e["call"] == "close" and not e["raised"]:
             out.append({"ev": "apiclose", "ep": e["ep"]})
         elif k == "tx":
@@ -200,16 +208,23 @@ def wire(log):
     for e in log:
         if e["k"] == "pkt":
             pk.setdefault(e["dg"], []).append(e)
+    # "one probe datagram per timeout": the allowance exists from a handle_timer call until the next call that puts in-flight
+    # bytes on the wire (whatever the timer was for: the lenient reading); the endpoint's own probe flag is not consulted
+    credit = {"c": False, "s": False}
     for e in log:
-        if e["k"] == "tx":
+        if e["k"] == "timer":
+            credit[e["ep"]] = True
+        elif e["k"] == "tx":
             infl = 0
             for d in e["dgs"]:
                 ps = pk.get(d["id"], [])
                 if any(p.get("inflight") for p in ps):
                     infl += sum(p["len"] for p in ps if p.get("inflight") or p["type"] == "dgram_padding")
-            out.append({"ev": "tx", "ep": e["ep"], "cwnd0": e["st0"]["cwnd"], "bif0": e["st0"]["bif"], "probe0": e["st0"]["probe"],
+            out.append({"ev": "tx", "ep": e["ep"], "cwnd0": e["st0"]["cwnd"], "bif0": e["st0"]["bif"], "probe0": credit[e["ep"]],
                         "mds": cfg["mds"], "inflight": infl, "ndg": len(e["dgs"]),
                         "closing": e["st"]["state"] in END_STATES or e["st0"]["state"] in END_STATES})
+            if infl > 0:
+                credit[e["ep"]] = False
     return out
 
 
